@@ -221,12 +221,19 @@ def h_explicit(E, family):
         sub.add_edge(ids[u], ids[v], order=o)
     R = SynReactor(substrate=sub, template=rc, canonicaliser=NoCanon(), strategy="all")  # explicit_h=True, implicit_temp=False
     res = R.its_list
+    _check_xh_results(E, res, sub, tmpl_its, dict(family=family, numbering=ids, n_results=len(res)))
+
+
+def _check_xh_results(E, res, sub, tmpl_its, info):
+    from synkit.Graph.ITS.its_decompose import its_decompose
+    from synkit.Graph.Hyrogen._misc import h_to_implicit
+    from vf.graphs import iso_formula
+
     want_cb = changed_bond_graph(tmpl_its)
-    info = dict(family=family, numbering=ids, n_results=len(res))
     bad_a, bad_b, bad_c = [], [], []
     for r in res:
         l, p = its_decompose(r)
-        li = h_to_implicit(l)
+        li = fold_heavy_h(l)
         ok = set(li.nodes) == set(sub.nodes) and {frozenset(e) for e in li.edges} == {frozenset(e) for e in sub.edges}
         if not ok:
             bad_a.append(True)
@@ -249,7 +256,41 @@ def h_explicit(E, family):
     E.observe(len(res))
 
 
-HARNESSES = {"instance": h_instance, "explicit": h_explicit}
+def fold_heavy_h(g):
+    """hydrogen nodes bonded to a heavy atom become counts; H-H and free protons stay atoms (they are atoms of the
+    substrate as well)"""
+    g2 = g.copy()
+    for v in [v for v, d in g.nodes(data=True) if d["element"] == "H"]:
+        heavy = [w for w in g2.neighbors(v) if g2.nodes[w]["element"] != "H"]
+        if heavy:
+            g2.nodes[heavy[0]]["hcount"] = g2.nodes[heavy[0]]["hcount"] + 1
+            g2.remove_node(v)
+    return g2
+
+
+def h_explicit_sym(E, n, nh, invert):
+    """a symbolic reaction with explicit centre hydrogens (harness.reactor_common.sym_xh_reaction); its centre template is
+    applied (default reactor flags) to the reaction's own reactants with up to one extra implicit hydrogen per carbon -
+    forwards - or, inverted, to its own products"""
+    from synkit.Graph.ITS.its_construction import ITSConstruction
+    from synkit.Graph.ITS.its_decompose import get_rc
+    from synkit.Synthesis.Reactor.syn_reactor import SynReactor
+    from harness.reactor_common import NoCanon, sym_xh_reaction, as_parsed
+
+    G, H, hyd, att = sym_xh_reaction(E, n, nh, no_relay=True)
+    its = ITSConstruction.ITSGraph(G, H)
+    rc = get_rc(its)
+    sub = as_parsed(H if invert else G, hyd)
+    for v in list(sub.nodes):
+        if v <= n and int(E.int("xh%d" % v, 0, 1)):
+            sub.nodes[v]["hcount"] = sub.nodes[v]["hcount"] + 1
+    res = SynReactor(substrate=sub, template=rc, canonicaliser=NoCanon(), strategy="all", invert=invert).its_list
+    tmpl_its = ITSConstruction.ITSGraph(H, G) if invert else its
+    _check_xh_results(E, res, sub, tmpl_its, dict(n=n, nh=nh, invert=invert, n_results=len(res),
+                                                   attach={"%s%d" % k: v for k, v in att.items()}))
+
+
+HARNESSES = {"instance": h_instance, "explicit": h_explicit, "explicit_sym": h_explicit_sym}
 
 
 def shards(tier, seed):
@@ -271,6 +312,9 @@ def shards(tier, seed):
                 sh.append(dict(h="instance", params=dict(k=2, hn=4, hedges=he, strategy=strategy, invert=False, lite=q)))
             if not q:
                 sh.append(dict(h="instance", params=dict(k=3, hn=4, hedges=he, strategy="all", invert=False, hmax_t=0, lite=True)))
-    for fam in ("enol", "MPV", "ester", "deprot", "imine"):
+    for fam in ("enol", "MPV", "ester", "deprot", "imine", "redam"):
         sh.append(dict(h="explicit", params=dict(family=fam)))
+    for nh in ((1, 2) if q else (1, 2, 3)):
+        for invert in (False, True):
+            sh.append(dict(h="explicit_sym", params=dict(n=2, nh=nh, invert=invert)))
     return sh
